@@ -341,3 +341,6 @@ UNITS += [ms_field]
 _bat = replay.battery('C19/driver.cpp', ['battery'])
 for _u in UNITS:
     _u.replay = replay.first_of(_u.replay, _bat) if _u.replay else _bat
+
+# planted one-token breaks for the newer units (thorough tier: each must make an obligation fail)
+ms_field.planted = [('ms', r'fract\(vf_t\)', 'vf_fmod(vf_t, 1.0)')]
